@@ -11,6 +11,10 @@ import (
 )
 
 func (c *Ctx) preamble() string {
+	// scripts of one unit are built by several goroutines: the cache is guarded (an unsynchronised string write
+	// was read torn once and crashed the checker)
+	c.preambleMu.Lock()
+	defer c.preambleMu.Unlock()
 	if c.preambleCache != "" {
 		return c.preambleCache
 	}
